@@ -38,7 +38,7 @@ class RBuf(Buf):
 
 
 class V2Input:
-    """S[0..L): L is any non-negative integer (no size bound)."""
+    """S[0..L): L is any length a Rust slice can have (0 <= L <= isize::MAX): no buffer-size bound."""
 
     def __init__(self, suffix='', share=None):
         self.suffix = suffix
@@ -47,7 +47,7 @@ class V2Input:
         self.buf = RBuf('v2in' + suffix, self.S, self.L)
         self.lmax = 0
         # range facts of the fixed-offset bytes (fixed part + largest address block) as base axioms
-        self.axioms = [self.L >= 0] + [z3.And(self.S(j) >= 0, self.S(j) <= 255) for j in range(16 + 216)]
+        self.axioms = [self.L >= 0, self.L <= 2 ** 63 - 1] + [z3.And(self.S(j) >= 0, self.S(j) <= 255) for j in range(16 + 216)]
 
     def slice(self):
         return Str(self.buf, 0, self.L, is_str=False)
@@ -165,6 +165,9 @@ def hook(ex, func, argv, frame):
     if g in ('<std::borrow::Cow as std::ops::Deref>::deref', '<std::borrow::Cow as std::convert::AsRef>::as_ref', '<std::borrow::Cow as std::borrow::Borrow>::borrow'):
         c = deref(a[0])
         return True, as_slice(c.fields[0])
+    if re.match(r'^<(&?\[u8\]|&?\[T\]|&?str|\[u8; \d+\]) as std::convert::AsRef(<.*>)?>::as_ref$', f) or \
+            re.match(r'^<(&?\[u8\]|&?\[T\]|\[u8; \d+\]) as std::borrow::Borrow(<.*>)?>::borrow$', f):
+        return True, as_slice(a[0])
     if g in ('<std::vec::Vec as std::ops::Deref>::deref', 'std::vec::Vec::as_slice') and isinstance(deref(a[0]), Opaque) and deref(a[0]).kind == 'VecU8':
         return True, deref(a[0]).s
     if g in ('core::slice::<impl [u8]>::is_empty', 'core::slice::<impl [T]>::is_empty'):
